@@ -4,7 +4,8 @@ from concurrent.futures import ThreadPoolExecutor
 from . import wire
 
 ROOT = os.path.dirname(os.path.dirname(os.path.dirname(os.path.abspath(__file__))))
-EXE = os.path.join(ROOT, 'coq', 'modelrun')
+def exe(pid):
+    return os.path.join(ROOT, 'coq', 'bin', 'modelrun_' + pid)
 
 
 class ModelError(Exception):
@@ -12,7 +13,7 @@ class ModelError(Exception):
 
 
 def _shard(pid, lines):
-    p = subprocess.run(['bash', '-c', 'ulimit -s unlimited 2>/dev/null; exec "$0" "$1"', EXE, pid],
+    p = subprocess.run(['bash', '-c', 'ulimit -s unlimited 2>/dev/null; exec "$0" "$1"', exe(pid), pid],
                        input='\n'.join(lines) + '\n', stdout=subprocess.PIPE, stderr=subprocess.PIPE, text=True)
     out = p.stdout.split('\n')
     if out and out[-1] == '':
